@@ -547,7 +547,7 @@ func init() {
 			if tier == "thorough" {
 				ts = unionTrees(ts, spines(1), mixedTrees(false)[:30])
 			}
-			return []*core.Space{c09NewFrom(tier), c09IfaceKeys(), c09Merge(ts), c09FieldOptions(), c09Env(), c09Containers(), c09Refs(tier)}
+			return []*core.Space{c09NewFrom(tier), c09IfaceKeys(), c09MergeOverRefs(), c09Merge(ts), c09FieldOptions(), c09Env(), c09Containers(), c09Refs(tier)}
 		},
 		Post: func(tier string, cov map[string]interface{}) {
 			// states/transitions are aggregated by the runner from Result.States/Trans
